@@ -191,9 +191,13 @@ impl<M: EntityMatcher> TryFrom<&config::FieldMatcher> for MatchAndExpr<M> {
     type Error = ImportError;
 
     fn try_from(from: &config::FieldMatcher) -> Result<Self, ImportError> {
-        let matchers: Result<Vec<M>, _> = from
-            .fields
-            .iter()
+        // verification hook: the order in which the map yields its entries is a choice of the harness
+        #[cfg(okane_verif)]
+        let fields = okane_core::verif::permuted(from.fields.iter().collect::<Vec<_>>());
+        #[cfg(not(okane_verif))]
+        let fields = from.fields.iter();
+        let matchers: Result<Vec<M>, _> = fields
+            .into_iter()
             .map(|(fd, v)| (*fd, v.as_str()).try_into())
             .collect();
         let matchers = matchers?;
